@@ -37,6 +37,7 @@ type File struct {
 	CID     string `json:"cid,omitempty"`  // WithFileContentID
 	CT      string `json:"ct,omitempty"`   // WithFileContentType
 	// Source: "" = File struct with Writer; "reader@" / "readseeker@" = the same on a source that stands behind a header the caller has read already;
+	// "readseeker+" = the read-seeker was attached to another Msg before, which was rendered once;
 	// "reader" / "readseeker" = AttachReader / AttachReadSeeker on a private
 	// *bytes.Reader; "buffer" = AttachReader on ONE *bytes.Buffer shared by all such files of the message, which the
 	// caller refills for the next file and finally overwrites (the library documents that readers are consumed at
@@ -464,6 +465,23 @@ func Build(s Msg, h *Hooks) (*mail.Msg, error) {
 				case attach:
 					m.AttachReadSeeker(f.Name, rd, fo...)
 				default:
+					m.EmbedReadSeeker(f.Name, rd, fo...)
+				}
+				continue
+			case "readseeker+":
+				// history: the same read-seeker (standing behind a header the caller has consumed) was attached to ANOTHER
+				// message before, which was rendered once (a mailing loop that makes one Msg per recipient from one open file)
+				rd := bytes.NewReader(append([]byte("HEADER-CONSUMED\n"), f.Content...))
+				_, _ = rd.Seek(int64(len("HEADER-CONSUMED\n")), io.SeekStart)
+				prev := mail.NewMsg()
+				_ = prev.From("earlier@snd.example")
+				_ = prev.To("earlier@rcp.example")
+				prev.SetBodyString(mail.TypeTextPlain, "earlier message\r\n")
+				prev.AttachReadSeeker("earlier-"+f.Name, rd)
+				_, _ = prev.WriteTo(io.Discard)
+				if attach {
+					m.AttachReadSeeker(f.Name, rd, fo...)
+				} else {
 					m.EmbedReadSeeker(f.Name, rd, fo...)
 				}
 				continue
